@@ -3,11 +3,10 @@ import Dbg.Spec.C07
 namespace Drv.C07
 open Msp
 
-/-- base-4 rank of a p-mer (`to_u64`) -/
-def rank (w : List Nat) : Nat := w.foldl (fun a b => a * 4 + b) 0
+open Compress (rank)
 
 /-- score functions the harness can express on both sides -/
-def parseScore (p : Nat) (s : String) : R (List Nat → Nat) :=
+def parseScore (p : Nat) (s : String) : R (Compress.Seq → Nat) :=
   match s.splitOn ":" with
   | ["tab", t] => do
     let tab ← natList t
